@@ -39,21 +39,31 @@ func copyTok(t tok.Token) tok.Token {
 // Returns tokens, outcome class ("ok", error class, "panic", "loop") and steps taken.
 func runDecoder(src stepper, stepCap int) (toks []tok.Token, class string, steps int) {
 	var slot tok.Token
+	// `held` keeps the tokens exactly as handed out (no copy): a consumer may collect the
+	// sequence and look at it later, so a token must not change once a later Step has run.
+	var held []tok.Token
+	fin := func(class string) ([]tok.Token, string, int) {
+		if class != "panic" && showToks(held) != showToks(toks) {
+			return held, "alias", steps
+		}
+		return toks, class, steps
+	}
 	for steps < stepCap {
 		done, err, p := safeStep(src, &slot)
 		steps++
 		if p {
-			return toks, "panic", steps
+			return fin("panic")
 		}
 		if err != nil {
-			return toks, errClass(err), steps
+			return fin(errClass(err))
 		}
 		toks = append(toks, copyTok(slot))
+		held = append(held, slot)
 		if done {
-			return toks, "ok", steps
+			return fin("ok")
 		}
 	}
-	return toks, "loop", steps
+	return fin("loop")
 }
 
 func showDec(toks []tok.Token, rest int, class string) string {
